@@ -56,6 +56,12 @@ def _locals_of(fn):
             ids.add(n['id'])
         if n['k'] == 'forrange' and SX.is_node(n.get('var')) and n['var'].get('id'):
             ids.add(n['var']['id'])
+        if n['k'] == 'lambda':
+            for p_ in n.get('params', []):
+                if p_.get('id'):
+                    ids.add(p_['id'])
+        if n['k'] == 'if' and SX.is_node(n.get('cv')) and n['cv'].get('id'):
+            ids.add(n['cv']['id'])
     return ids
 
 
@@ -199,9 +205,9 @@ class _Inliner:
             return None
         if len(h.params) != len(_all_args(e)) or h.d.get('virtual'):
             return None
-        if any(n['k'] == 'lambda' for n in SX.walk(h.body)):
-            return None
-        if sum(1 for _ in SX.walk(h.body)) > 400:
+        if self.only is None and any(n['k'] == 'lambda' for n in SX.walk(h.body)):
+            return None       # (under the global new-helper policy lambdas are collected after inlining, so helpers may hold closures)
+        if sum(1 for _ in SX.walk(h.body)) > (1500 if self.only is not None else 400):
             return None
         body = h.body.get('body') if h.body.get('k') == 'block' else None
         if body is None:
